@@ -143,11 +143,19 @@ def check_seq_inputs(facts, chk, rule, tier, what):
     k = 17          # DEFAULT_KMER: the documented default of `ska build`, used when sequence files are given directly
     g, samples = _long_samples()
     names, rows = spec_table(samples, k, 1)
-    for threads in ((1, 2) if tier != 'thorough' else (1, 2, 3, 4)):
+    # second layout: every sample in its own directory under the same file name (samples are then all named alike, one per file, in input order)
+    for threads, same_name in [(th, False) for th in ((1, 2) if tier != 'thorough' else (1, 2, 3, 4))] + [(1, True)]:
         W = World(facts)
-        for nm, recs in samples:
-            W.seq[nm + '.fa'] = ('fasta', [('r%d' % i, s, None) for i, s in enumerate(recs)])
-        files = W.strings([nm + '.fa' for nm, _ in samples])
+        paths = []
+        for i, (nm, recs) in enumerate(samples):
+            pth = ('run_%d/contigs.fa' % i) if same_name else nm + '.fa'
+            W.seq[pth] = ('fasta', [('r%d' % j, s, None) for j, s in enumerate(recs)])
+            paths.append(pth)
+        files = W.strings(paths)
+        if same_name:
+            names = ['contigs'] * len(samples)
+        else:
+            names = [nm for nm, _ in samples]
         n += 1
         if what == 'align':
             st = W.run(W.command('Align', input=files, output=NONE, min_freq=0.0, filter_ambig_as_missing=BV(1, 0), filter=W.enum('cli::FilterType', 'NoConst'),
@@ -164,6 +172,8 @@ def check_seq_inputs(facts, chk, rule, tier, what):
             st = W.run(W.command('Map', reference=S('ref.fa'), input=files, output=NONE, format=W.enum('cli::FileType', 'Aln'), ambig_mask=BV(1, 0), repeat_mask=BV(1, 0),
                                  threads=BV(64, threads)))
             want = e2e.spec_map([g], samples, k, 1, 0, 0)
+            if same_name:
+                want = [('contigs', sq) for _, sq in want]
             got = [(nm, sq) for nm, sq in W.fasta]
             if st != 0 or got != [(nm, sq) for nm, sq in want]:
                 diff = [(a, b) for a, b in zip(got, want) if tuple(a) != tuple(b)][:1]
